@@ -145,6 +145,9 @@ const TypesSchema = `module types { namespace "urn:types"; prefix t; revision 0;
     leaf-list lb { type boolean; }
     leaf-list ld { type decimal64 { fraction-digits 2; } }
     leaf-list lu { type uint64; }
+    leaf uid { type union { type identityref { base base-id; } type int32; } }
+    leaf ub { type union { type boolean; type int8; } }
+    leaf-list lun { type union { type int32; type string; } }
     leaf en { type enumeration { enum "1" { value 2; } enum "2" { value 1; } enum "x" { value 7; } } }
     leaf lr { type leafref { path "../i8"; } }
     leaf lre { type leafref { path "../e"; } }
@@ -272,8 +275,29 @@ func ParseScalar(t *meta.Type, s string) val.Value {
 		}
 		return b
 	case val.FmtUnion:
+		// first member whose lexical space holds s (RFC 7950 9.12)
+		hasString := false
 		for _, mt := range t.Union() {
-			if mt.Format() == val.FmtString {
+			switch mt.Format() {
+			case val.FmtString:
+				hasString = true
+				continue
+			case val.FmtIdentityRef:
+				if meta.FindIdentity(mt.Base(), s) != nil {
+					return val.IdentRef{Label: s}
+				}
+				continue
+			case val.FmtBool:
+				if s == "true" || s == "false" {
+					return val.Bool(s == "true")
+				}
+				continue
+			case val.FmtEnum:
+				for _, e := range mt.Enum() {
+					if e.Label == s {
+						return e
+					}
+				}
 				continue
 			}
 			if _, err := strconv.ParseFloat(s, 64); err == nil {
@@ -281,6 +305,9 @@ func ParseScalar(t *meta.Type, s string) val.Value {
 					return v
 				}
 			}
+		}
+		if !hasString {
+			return nil
 		}
 		return val.String(s)
 	}
